@@ -5,6 +5,7 @@ package main
 // Mirror of lean/Driver/OpsMerkle.lean.
 
 import (
+	"bytes"
 	"bufio"
 	"fmt"
 	"strconv"
@@ -114,16 +115,16 @@ func execMk(op string, args []string) string {
 		ns := p.mkNums()
 		r = h.Uint64ListHTR(func(i uint64) uint64 { return ns[i] }, uint64(len(ns)), limit)
 	case "mk.bytevec":
-		r = h.ByteVectorHTR(unhex(p.next()))
+		return mkTwice(unhex(p.next()), func(bs []byte) tree.Root { return h.ByteVectorHTR(bs) })
 	case "mk.bytelist":
 		limit := p.num()
-		r = h.ByteListHTR(unhex(p.next()), limit)
+		return mkTwice(unhex(p.next()), func(bs []byte) tree.Root { return h.ByteListHTR(bs, limit) })
 	case "mk.bitvec":
 		_ = p.num() // bit length: only the spec side needs it
-		r = h.BitVectorHTR(unhex(p.next()))
+		return mkTwice(unhex(p.next()), func(bs []byte) tree.Root { return h.BitVectorHTR(bs) })
 	case "mk.bitlist":
 		limit := p.num()
-		r = h.BitListHTR(unhex(p.next()), limit)
+		return mkTwice(unhex(p.next()), func(bs []byte) tree.Root { return h.BitListHTR(bs, limit) })
 	case "mk.union":
 		sel := p.num()
 		t := p.next()
@@ -136,6 +137,22 @@ func execMk(op string, args []string) string {
 		panic("bad mk op " + op)
 	}
 	return "ok " + rootHex(r)
+}
+
+// mkTwice: the helpers that take the caller's byte slice are called twice on the same slice; a
+// helper must neither change it nor answer differently the second time (reported after the root).
+func mkTwice(bs []byte, f func([]byte) tree.Root) string {
+	orig := append([]byte(nil), bs...)
+	r1 := f(bs)
+	r2 := f(bs)
+	out := "ok " + rootHex(r1)
+	if r2 != r1 {
+		out += " second-call=" + rootHex(r2)
+	}
+	if !bytes.Equal(orig, bs) {
+		out += " input-changed-to=" + hexs(bs)
+	}
+	return out
 }
 
 // ---- generator ----
@@ -225,6 +242,10 @@ func genC08(g *Gen, tier string, out *bufio.Writer) {
 
 	// typed helpers
 	limitFor := func(n uint64) uint64 { // a limit >= n from the property's list (or n itself)
+		if g.Chance(12) {
+			// limits whose byte or bit size no longer fits 64 bits ("limits up to 2^64-1")
+			return g.Pick([]uint64{1 << 56, 1<<58 + 3, 1 << 59, 1 << 60, 1<<61 - 1, 1 << 61, 1<<61 + 4, 1 << 62, 1<<63 - 1, 1 << 63, 1<<63 + 1})
+		}
 		var ok []uint64
 		for _, l := range mkTypedLimits {
 			if l >= n {
